@@ -62,6 +62,14 @@ fn main() {
             _ => usage(),
         }
     }
+    // the checks are meaningless unless std/tokio time follows the interposed clock: verify first
+    if let Err(e) = vcheck::vclock::self_check() {
+        println!("HARNESS-ERROR virtual clock is not effective in this environment: {e}");
+        std::process::exit(2);
+    }
+    if id == "selftest" {
+        std::process::exit(vcheck::selftest::run());
+    }
     sim::install_quiet_panic_hook();
     runner::start_watchdog(match opts.tier {
         Tier::Quick => 900,
